@@ -778,6 +778,24 @@ class Folder:
             if not broke and st.orelse:
                 self.block(st.orelse, env, m)
             return
+        if isinstance(st, ast.Delete):
+            for t in st.targets:
+                if isinstance(t, ast.Subscript):
+                    obj = self.expr(t.value, env, m)
+                    k = self.expr(t.slice, env, m)
+                    if isinstance(obj, (dict, list)) and not is_unknown(k):
+                        try:
+                            del obj[k]
+                            continue
+                        except (KeyError, IndexError):
+                            fr = FoldRaise(None)
+                            fr.name = "KeyError" if isinstance(obj, dict) else "IndexError"
+                            raise fr
+                        except Exception:
+                            pass
+                self._note(t, None)
+                self._poison(st, env, m)
+            return
         if isinstance(st, ast.Break):
             raise _Break()
         if isinstance(st, ast.Continue):
